@@ -25,7 +25,7 @@ type fakeData struct {
 func (f *fakeData) InstanceID() dvid.InstanceID { return f.id }
 func (f *fakeData) DataName() dvid.InstanceName { return "fake" }
 
-var boundaryIDs = []uint32{0, 1, 2, 255, 256, 65535, 65536, 0x00FFFFFF, 0x01000000, 0x7FFFFFFF, 0x80000000, 0xFFFFFFFE, 0xFFFFFFFF}
+var boundaryIDs = []uint32{0, 1, 2, 255, 256, 511, 0x1FF, 0x2FF, 65535, 65536, 0x0001FFFF, 0x12FF, 0x00FFFFFF, 0x01000000, 0x7FFFFFFF, 0x80000000, 0xFFFFFFFE, 0xFFFFFFFF}
 
 func genID(r *Rng) uint32 {
 	switch r.Intn(4) {
@@ -196,6 +196,24 @@ func runC06(c *Ctx) {
 		}
 		if t.i != 0xFFFFFFFF && !(bytes.Compare(rmin, key) <= 0 && bytes.Compare(key, rmax) < 0) {
 			c.Report("O", "C06 instance-range", "key outside its instance range", op)
+		}
+		// isolation at the range's ends: the smallest key of the next instance and the largest of the previous
+		// one (same datum key) lie outside [min, max) of this instance
+		if t.i != 0xFFFFFFFF {
+			nctx := storage.VerifDataContext(&fakeData{id: dvid.InstanceID(t.i + 1)}, 0, 0)
+			nk := nctx.ConstructKey(nil)
+			nk2 := storage.VerifDataContext(&fakeData{id: dvid.InstanceID(t.i + 1)}, dvid.VersionID(t.v), dvid.ClientID(t.c)).ConstructKey(t.tk)
+			for _, k := range [][]byte{nk, nk2} {
+				if bytes.Compare(rmin, k) <= 0 && bytes.Compare(k, rmax) < 0 {
+					c.Report("O", "C06 instance-range-leaks", fmt.Sprintf("a key of instance %d lies inside the key range of instance %d", t.i+1, t.i), op+"\nkey "+hx(k)+" range "+hx(rmin)+" "+hx(rmax))
+				}
+			}
+		}
+		if t.i != 0 {
+			pk := storage.VerifDataContext(&fakeData{id: dvid.InstanceID(t.i - 1)}, 0xFFFFFFFF, 0xFFFFFFFF).ConstructKey(append(append([]byte{}, t.tk...), 0xFF, 0xFF))
+			if bytes.Compare(rmin, pk) <= 0 && bytes.Compare(pk, rmax) < 0 {
+				c.Report("O", "C06 instance-range-leaks", fmt.Sprintf("a key of instance %d lies inside the key range of instance %d", t.i-1, t.i), op+"\nkey "+hx(pk)+" range "+hx(rmin)+" "+hx(rmax))
+			}
 		}
 		nontrivial := t.tomb
 		for _, b := range boundaryIDs {
